@@ -61,7 +61,7 @@ def run(ck):
         c['timeout'] = (1 + (k // 4) % (iters - 1)) if (k % 4 == 1 and iters >= 2) else None
         budget = iters if c['timeout'] is None else c['timeout']
         o = sc.run_real_fit(xr, c['iters'], c['arg'], c['scores'], 'mse' if c['minimize'] else 'accuracy', c['early'], c['mult'], c['rb'],
-                            ctor_metric=c['ctor_metric'], timeout_round=c['timeout'])
+                            ctor_metric=c['ctor_metric'], timeout_round=c['timeout'], return_Ms=bool(k % 3 == 2))          # every third history also asks for the list of per-round matrices (a pure by-product)
         if c['timeout'] is not None:
             ck.count('scripted: clock runs out at the top of a round')
         ck.case(dict(c, observed=o), nontrivial=iters >= 1, sample=(k % 701 == 3))
